@@ -1,5 +1,5 @@
 """C11: see DESIGN.md section 5. Collector-core property: theorems in coq/Props/C11.v, tie by lock-step."""
-from props import core
+from props import core, builders_oracle
 
 SETUP_KEY = core.SETUP_KEY
 setup = core.setup
@@ -7,6 +7,7 @@ setup = core.setup
 
 def run(chk, tier, seed):
     core.run_core(chk, "C11", tier, seed)
+    builders_oracle.run(chk, "C11", tier, seed)
 
 
 def replay(path):
